@@ -67,5 +67,14 @@ func IsNil(node interface{}) bool {
 		return true
 	}
 
-	return reflect.ValueOf(node).IsNil()
+	// Only some kinds can be nil. Anything else (a string, a number, a struct)
+	// is never nil and reflect would panic if we asked.
+	v := reflect.ValueOf(node)
+	switch v.Kind() {
+	case reflect.Chan, reflect.Func, reflect.Interface, reflect.Map,
+		reflect.Ptr, reflect.Slice, reflect.UnsafePointer:
+		return v.IsNil()
+	}
+
+	return false
 }
